@@ -158,3 +158,42 @@ Fixpoint to_lower (s : string) : string :=
   | String c r => String (lower_ascii c) (to_lower r)
   end.
 Definition equal_fold (a b : string) : bool := String.eqb (to_lower a) (to_lower b).
+
+(* utf8.RuneCountInString on valid UTF-8: the bytes that are not continuation bytes (10xxxxxx).  ANTLR's columns
+   count characters, so the end column of a name is its start column plus its number of characters. *)
+Definition is_cont_byte (c : ascii) : bool :=
+  let n := nat_of_ascii c in Nat.leb 128 n && Nat.leb n 191.
+Fixpoint rune_count (s : string) : nat :=
+  match s with
+  | EmptyString => 0
+  | String c r => (if is_cont_byte c then 0 else 1) + rune_count r
+  end.
+
+(* the text after the first n characters / the first n characters (character = a byte that is not a continuation
+   byte, with the continuation bytes that follow it) *)
+Fixpoint skip_cont (s : string) : string :=
+  match s with
+  | String c r => if is_cont_byte c then skip_cont r else s
+  | EmptyString => EmptyString
+  end.
+
+Fixpoint take_cont (s : string) : string :=
+  match s with
+  | String c r => if is_cont_byte c then String c (take_cont r) else EmptyString
+  | EmptyString => EmptyString
+  end.
+
+Fixpoint drop_runes (n : nat) (s : string) : string :=
+  match n with
+  | 0 => s
+  | S n' => match s with EmptyString => EmptyString | String _ r => drop_runes n' (skip_cont r) end
+  end.
+
+Fixpoint take_runes (n : nat) (s : string) : string :=
+  match n with
+  | 0 => EmptyString
+  | S n' => match s with
+            | EmptyString => EmptyString
+            | String c r => String c (take_cont r ++ take_runes n' (skip_cont r))
+            end
+  end.
